@@ -331,7 +331,7 @@ func genW1(prop string, seed uint64, p profile) *Scenario {
 	}
 	sc.NetWindow = g.pick(0, 0, 0, 65536, 4096, 100)
 	if p.hotGates {
-		opts := []string{"stage.prepare", "stage.receive.begin", "stage.receive.written", "stage.received", "stage.status", "stage.scan", "stage.pathlock"}
+		opts := []string{"stage.prepare", "stage.receive.begin", "stage.receive.written", "stage.received", "stage.status", "stage.scan", "stage.pathlock", "cache.lock"}
 		for _, o := range opts {
 			if g.pct(25) || (o == "stage.pathlock" && g.pct(40)) {
 				sc.Hot = append(sc.Hot, o)
